@@ -739,7 +739,9 @@ impl<'data> TablesData<'data> {
             if let Some(idx) = class.method_def_first_index {
                 let idx = idx as usize;
                 if idx <= self.methods.len() {
-                    for i in idx..last_method_index {
+                    // `last_method_index` comes from the (attacker-controlled) method list index
+                    // of a later class and can exceed the number of methods: clamp it.
+                    for i in idx..last_method_index.min(self.methods.len()) {
                         if let Some(sig) = self.methods[i].signature.as_ref() {
                             let mut sig = Bytes(sig);
                             if let Some(sig) = self.parse_method_def_signature(
